@@ -40,7 +40,7 @@ for q in ("cohdl.utility.code_writer:TextBlock.__init__", "cohdl.utility.code_wr
 
 # expression / block writers are separate units: here they only produce text
 def _write_model(it, self, *a, **k):
-    return SFmt([Opaque("text-of", self)])
+    return SFmt([Opaque("text-of", self, k.get("target_hint"))])
 
 
 for cls in (VR.Value, VR.Target, VR.CodeBlock, VR.Constant, VR.Literal):
@@ -112,6 +112,71 @@ for n in (0, 1, 2, 3):
         for empty in (True, False):
             c = Case(f"{n}-branches{'-others' if others else ''}{'-empty' if empty else ''}", [case_shape(n, others, empty), SCOPE], case_spec(n))
             c.native = False
+            con.cases.append(c)
+
+
+# vector-typed selectors: the case expression is written in the DECLARED type of the root object (so that it needs
+# no conversion function and has a locally static subtype), and every choice is formatted against that same
+# expression -- a selector in one vector type with choices qualified in another is ill-typed VHDL
+from cohdl import Unsigned, Signed, BitVector  # noqa: E402
+from contracts.core_models import vec  # noqa: E402
+
+
+def typed_case_shape(root_kind, view_kind, sliced):
+    def make(env):
+        root = FC.tq(vec(root_kind, env["sel_rw"], env["sel_bits"]))
+        if sliced:
+            res = FC.tq(vec(view_kind, env["sel_tw"], 0), root, [FC.Slice(0, 0, None)])
+        elif view_kind is root_kind:
+            res = root
+        else:
+            res = FC.tq(vec(view_kind, env["sel_rw"], env["sel_bits"]), root)
+        cond = SObj(VR.Value, result=res)
+        br = [(SObj(VR.Constant, result=i), SObj(VR.CodeBlock, _stmts=[], __empty__=False)) for i in range(2)]
+        return SObj(VR.CaseWhen, _cond=cond, _branches=br, _others=None)
+
+    b = Built(["sel_rw", "sel_tw", "sel_bits"], make, lambda asg: "None", lambda asg: None,
+              assume=lambda env: sym.And(env["sel_rw"] >= 1, env["sel_tw"] >= 1, env["sel_tw"] <= env["sel_rw"], env["sel_bits"] >= 0))
+    return b
+
+
+def typed_case_spec(root_kind):
+    def spec(sx, self, scope):
+        def holds(res):
+            texts = [t for _, t in flat(res)]
+            head = texts[0]
+            if not (isinstance(head, SFmt) and head.parts[0] == "case " and isinstance(head.parts[1], Opaque) and head.parts[1].tag == "text-of"):
+                return False
+            sel = head.parts[1].deps[0]
+            if not (isinstance(sel, SObj) and sel.kind is VR.Value):
+                return False
+            r = sel.fields["result"]
+            prim = r.fields.get("_value") if isinstance(r, SObj) else None
+            if not (isinstance(prim, SObj) and prim.kind is root_kind):
+                return False
+            whens = [t for t in texts if isinstance(t, SFmt) and isinstance(t.parts[0], str) and t.parts[0].startswith("when ") and len(t.parts) > 1]
+            if len(whens) != 2:
+                return False
+            # every choice is formatted against the selector expression actually written
+            return all(isinstance(w.parts[1], Opaque) and len(w.parts[1].deps) == 2 and w.parts[1].deps[1] is r for w in whens)
+
+        return C.Pred(holds, "case <selector in the declared type of its root> is; choices formatted against that selector")
+
+    return spec
+
+
+def _value_ctor(it, args, kw):
+    return SObj(VR.Value, result=args[0])
+
+
+for root_kind in (Unsigned, Signed, BitVector):
+    for view_kind in (Unsigned, Signed, BitVector):
+        for sliced in (False, True):
+            if sliced and view_kind is not BitVector:
+                continue  # a slice is a BitVector view; typed views of slices are covered by the cast contracts
+            c = Case(f"selector:{view_kind.__name__}{'-slice' if sliced else ''}-of-{root_kind.__name__}", [typed_case_shape(root_kind, view_kind, sliced), SCOPE], typed_case_spec(root_kind))
+            c.native = False
+            c.interp_flags = {"class_call_models": {VR.Value: _value_ctor}}
             con.cases.append(c)
 
 
